@@ -3,13 +3,22 @@
 Correspondence: real `parse_element` + calls vs. the Lean model (`parse_call`: element tree
 and every result).  Direct oracle: the Draft-6 specification written in Lean (`spec` op),
 independent of the library.  Failures are classified by the hypotheses of `C01_partial`
-(evaluated by the driver)."""
+(evaluated by the driver).
+
+The statement makes the verdict a function of (schema, value) alone, so the run is also an
+operation history: every parse and call is logged (`History`), elements parsed earlier are
+re-called and their schemas re-parsed after later, unrelated parses (`Watch.sweep`), and a
+failure that does not reproduce on its own in a fresh process is reduced to the part of the
+history it needs (`isolate`); the replayable case then carries that history."""
 import json
+import os
 import random
+import subprocess
+import sys
 
 from harness import core
-from harness.framework import Outcome
-from harness.gen import SchemaGen, ValueGen, families
+from harness.framework import Outcome, jsonable, unjsonable
+from harness.gen import DESCRIPTIONS, PROP_NAMES, TITLES, SchemaGen, ValueGen, families
 
 ID = "C01"
 TIE_MODULES = ["StathamModel.Tie"]
@@ -26,6 +35,11 @@ FLAG_FINDING = [
 ]
 N_SCHEMAS = {"quick": 1500, "thorough": 40000}
 N_VALUES = 8
+N_TRIVIAL_ROUNDS = {"quick": 2, "thorough": 12}
+SWEEP_EVERY = 80            # parses between two re-observations of the watched elements
+MAX_ISOLATIONS = 2          # failures reduced to a self-contained case per run (the first ones)
+PROBE_BUDGET = 48           # fresh-process probes spent on reducing one history
+NP_MARK = {"$notpassed": 1}
 
 
 def classify(flags):
@@ -42,7 +56,261 @@ def nontrivial(schema, value):
     return len(keys) >= 2
 
 
-def check_case(drv, schema, values, out, stats, want_tree=True):
+# ----------------------------------------------------------------------------- operation history
+
+class History:
+    """Everything the library was asked to do in this process, in order: one entry per parse,
+    with the values the parsed element was then called on."""
+
+    def __init__(self):
+        self.log = []
+        self.isolations = 0
+
+    def record(self, schema, values):
+        self.log.append({"schema": schema, "values": [NP_MARK if isinstance(v, core.NotPassed) else v for v in values]})
+        return len(self.log) - 1
+
+
+def _bad(r, allowed):
+    """is this outcome of a call a failure of the property (as `check_case` judges it)?"""
+    if r == "typeError":
+        return True
+    if r in ("ok", "reject"):
+        return (r == "ok") not in allowed
+    return False
+
+
+def run_history(case):
+    """Do, in this process, what a case describes and return the outcomes of calling the case's
+    schema on the case's value.  order "after": the history is parsed (and called) first, then the
+    schema; order "before": the schema is parsed first, the history happens, and the element parsed
+    before it is called (then the schema is parsed once more and that element is called too)."""
+    schema, value = case["schema"], case["value"]
+    obs = []
+    old = None
+    if case.get("order") == "before":
+        status, old = core.real_parse(schema)
+        if status != "ok":
+            return None
+        obs.append(("element before the history", core.real_call(old, value)["r"]))
+    for entry in case.get("history") or []:
+        status, el = core.real_parse(entry["schema"])
+        if status == "ok":
+            for v in entry.get("values") or []:
+                core.real_call(el, core.NP if v == NP_MARK else v)
+    if old is not None:
+        obs.append(("element parsed before the history, called after it", core.real_call(old, value)["r"]))
+    status, el = core.real_parse(schema)
+    if status != "ok":
+        return None
+    obs.append(("element parsed after the history", core.real_call(el, value)["r"]))
+    return obs
+
+
+def _probe(case, allowed):
+    """Run a case in a fresh interpreter.  True: the property fails there, False: it holds, None: the probe itself broke."""
+    req = json.dumps(jsonable({"case": case}), ensure_ascii=True, default=str)
+    try:
+        p = subprocess.run([sys.executable, "-m", "harness.props.c01", "--probe"], input=req, stdout=subprocess.PIPE,
+                           stderr=subprocess.DEVNULL, text=True, timeout=600, cwd=core.VERIF)
+        lines = [l for l in p.stdout.splitlines() if l.startswith("{")]
+        obs = json.loads(lines[-1])["obs"]
+    except Exception:  # noqa: BLE001
+        return None
+    if obs is None:
+        return None
+    return any(_bad(r, allowed) for _label, r in obs)
+
+
+def _ddmin(items, fails, budget):
+    """Zeller's ddmin, bounded by a number of probes; returns a failing sublist."""
+    n = 2
+    while len(items) >= 2 and budget[0] > 0:
+        size = -(-len(items) // n)
+        chunks = [items[i:i + size] for i in range(0, len(items), size)]
+        reduced = False
+        for c in chunks:
+            if budget[0] <= 0:
+                break
+            budget[0] -= 1
+            if fails(c):
+                items, n, reduced = c, 2, True
+                break
+        if not reduced and len(chunks) > 2:
+            for i in range(len(chunks)):
+                if budget[0] <= 0:
+                    break
+                rest = [x for j, c in enumerate(chunks) if j != i for x in c]
+                budget[0] -= 1
+                if fails(rest):
+                    items, n, reduced = rest, max(n - 1, 2), True
+                    break
+        if not reduced:
+            if n >= len(items):
+                break
+            n = min(len(items), 2 * n)
+    return items
+
+
+def isolate(hist, case, allowed, order, candidates, stats):
+    """Make a failing (schema, value) self-contained.  If it fails on its own in a fresh process it is returned
+    as it is; otherwise the part of this process's history it needs is searched for (fresh-process probes, ddmin)
+    and attached.  Returns (case, remark)."""
+    def bump(key):
+        stats[key] = stats.get(key, 0) + 1
+    if hist is None or hist.isolations >= MAX_ISOLATIONS:
+        return case, None
+    hist.isolations += 1
+    alone = _probe({**case, "order": order}, allowed)
+    if alone is None:
+        bump("isolate-probe-broke")
+        return case, "could not be re-run in a fresh process"
+    if alone:
+        bump("isolate-fails-alone")
+        return case, None
+    fails = lambda h: bool(_probe({**case, "history": h, "order": order}, allowed))
+    base = None
+    for cand in candidates:
+        if cand and fails(cand):
+            base = list(cand)
+            break
+    if base is None:
+        bump("isolate-not-reproduced")
+        return case, "seen in this run only: passes alone and after the same history in a fresh process"
+    budget = [PROBE_BUDGET]
+    base = _ddmin(base, fails, budget)
+    bare = [{"schema": e["schema"], "values": []} for e in base]
+    if budget[0] > 0 and fails(bare):
+        base = bare
+    bump("isolate-history-dependent")
+    stats["isolate-history-length"] = len(base)
+    return {**case, "history": base, "order": order}, f"depends on {len(base)} other parse(s) in the same process"
+
+
+def features(schema, out, pos="root"):
+    """What a schema exercises: its keywords, boolean / empty subschemas per position, and the places where the
+    parser has to supply an element the document does not spell out."""
+    if isinstance(schema, bool) or schema == {}:
+        out.add(f"{json.dumps(schema)}@{pos}")
+        return out
+    if not isinstance(schema, dict):
+        return out
+    for k, v in schema.items():
+        out.add(k)
+        if k in ("properties", "patternProperties", "dependencies") and isinstance(v, dict):
+            for sub in v.values():
+                if not isinstance(sub, list):
+                    features(sub, out, k)
+        elif k in ("items", "anyOf", "oneOf", "allOf") and isinstance(v, list):
+            for sub in v:
+                features(sub, out, k)
+        elif k in ("items", "additionalItems", "additionalProperties", "contains", "propertyNames", "not"):
+            features(v, out, k)
+    props = schema.get("properties") if isinstance(schema.get("properties"), dict) else {}
+    if any(n not in props for n in schema.get("required") or []):
+        out.add("required-undeclared")
+    types = schema.get("type")
+    types = types if isinstance(types, list) else [types]
+    if "array" in types and "items" not in schema:
+        out.add("items-absent")
+    if isinstance(types[0], str) and len(types) > 1:
+        out.add("type-list")
+    return out
+
+
+class Watch:
+    """Elements parsed earlier in the run (a few per feature), re-observed after later parses: the element
+    itself is called again on values whose verdict was within the property when it was fresh, and its schema
+    is parsed again.  A verdict outside the property now is a failure whose case carries the history."""
+
+    PER_FEATURE = 1
+    VALUES = 3
+
+    def __init__(self, rng, hist):
+        self.rng = rng
+        self.hist = hist
+        self.by_feature = {}
+        self.last_sweep = 0
+        self.reported = 0
+        self.turn = 0
+
+    def offer(self, schema, el, idx, checked):
+        """checked: [(value, allowed, first outcome)] - all within the property, model and implementation agreeing"""
+        if not checked:
+            return
+        r = self.rng
+        acc = [c for c in checked if c[2] == "ok"]
+        rej = [c for c in checked if c[2] == "reject"]
+        vals = ([r.choice(acc)] if acc else []) + ([r.choice(rej)] if rej else [])
+        rest = [c for c in checked if all(c is not v for v in vals)]
+        vals += r.sample(rest, min(len(rest), self.VALUES - len(vals)))
+        entry = {"schema": schema, "el": el, "idx": idx, "vals": vals}
+        for f in sorted(features(schema, set())):
+            slot = self.by_feature.setdefault(f, [])
+            if len(slot) < self.PER_FEATURE:
+                slot.append(entry)
+            elif r.random() < 0.08:
+                slot[r.randrange(len(slot))] = entry
+
+    def entries(self):
+        seen, out = set(), []
+        for f in sorted(self.by_feature):
+            for e in self.by_feature[f]:
+                if id(e) not in seen and not e.get("dropped"):
+                    seen.add(id(e))
+                    out.append(e)
+        return out
+
+    def due(self):
+        return len(self.hist.log) - self.last_sweep >= SWEEP_EVERY
+
+    def sweep(self, out, stats):
+        hist = self.hist
+        now = len(hist.log)
+        self.turn += 1
+        entries = self.entries()
+        stats["history-sweeps"] = stats.get("history-sweeps", 0) + 1
+        stats["history-watched-elements"] = max(stats.get("history-watched-elements", 0), len(entries))
+        for n, e in enumerate(entries):
+            if self.reported >= 5:
+                break
+            reparsed = None
+            if (n + self.turn) % 4 == 0:
+                status, reparsed = core.real_parse(e["schema"])
+                if status != "ok":
+                    # whether a schema parses is C10's concern; here it only ends the watch on this element
+                    stats["history-reparse-" + status] = stats.get("history-reparse-" + status, 0) + 1
+                    e["dropped"] = True
+                    continue
+                stats["history-reparses"] = stats.get("history-reparses", 0) + 1
+            for value, allowed, first in e["vals"]:
+                for order, el in (("before", e["el"]), ("after", reparsed)):
+                    if el is None:
+                        continue
+                    real = core.real_call(el, value)
+                    stats["history-recalls"] = stats.get("history-recalls", 0) + 1
+                    if not _bad(real["r"], allowed):
+                        continue
+                    since = hist.log[max(e["idx"] + 1, self.last_sweep):now]
+                    if order == "before":
+                        cands = [since, hist.log[e["idx"] + 1:now]]
+                    else:
+                        cands = [since, hist.log[:now]]
+                    case, remark = isolate(hist, {"schema": e["schema"], "value": value}, allowed, order, cands, stats)
+                    which = "the element parsed earlier, called again" if order == "before" else "the same schema parsed again"
+                    out.failures.append({"case": case, "finding": None,
+                                         "what": f"verdict was {first} when the schema was first parsed; after {now - e['idx'] - 1} later parses "
+                                                 f"{which} gives {real['r']}, Draft 6 allows {sorted(allowed)}" + (f" ({remark})" if remark else "")})
+                    stats["history-verdict-changed"] = stats.get("history-verdict-changed", 0) + 1
+                    self.reported += 1
+                    e["dropped"] = True
+                    break
+                if e.get("dropped"):
+                    break
+        self.last_sweep = len(hist.log)
+
+
+def check_case(drv, schema, values, out, stats, want_tree=True, hist=None, watch=None):
     """Run one schema against the model and the spec; append disagreements / failures."""
     try:
         tables = core.schema_tables(schema, values)
@@ -51,6 +319,7 @@ def check_case(drv, schema, values, out, stats, want_tree=True):
     except (TypeError, ValueError):
         stats["unencodable"] = stats.get("unencodable", 0) + 1
         return
+    idx = hist.record(schema, values) if hist is not None else None
     status, el = core.real_parse(schema)
     rep = drv.ask({"op": "parse_call", "schema": enc_schema, "args": enc_args, "tables": tables})
     case0 = {"schema": schema}
@@ -81,6 +350,9 @@ def check_case(drv, schema, values, out, stats, want_tree=True):
     flags = spec["flags"]
     good = all(flags.values())
     stats["good-schemas" if good else "schemas-outside-hypotheses"] = stats.get("good-schemas" if good else "schemas-outside-hypotheses", 0) + 1
+    checked = []
+    clean = tree_ok
+    before = lambda: [hist.log[:idx]] if hist is not None else []
     for i, v in enumerate(values):
         real = core.real_call(el, v)
         model = rep["results"][i]
@@ -98,7 +370,10 @@ def check_case(drv, schema, values, out, stats, want_tree=True):
             continue
         if real["r"] not in ("ok", "reject"):
             if real["r"] == "typeError":
-                out.failures.append({"case": case, "what": "TypeError instead of ValidationError: " + real.get("msg", ""), "finding": None})
+                case, remark = isolate(hist, case, {True, False}, "after", before(), stats)
+                out.failures.append({"case": case, "what": "TypeError instead of ValidationError: " + real.get("msg", "") + (f" ({remark})" if remark else ""),
+                                     "finding": None})
+            clean = False
             continue
         if not spec["distinct_keys"][i]:
             continue
@@ -107,9 +382,24 @@ def check_case(drv, schema, values, out, stats, want_tree=True):
         if got not in allowed:
             # known only if the model predicts the implementation here AND a listed hypothesis is violated
             fid = classify(flags) if agree else None
-            out.failures.append({"case": case, "what": f"implementation {'accepts' if got else 'rejects'}, Draft 6 says {'valid' if spec['strict'][i] else 'invalid'}",
+            remark = None
+            if fid is None:
+                # is the pair enough, or does the failure need what was parsed before it in this process?
+                case, remark = isolate(hist, case, allowed, "after", before(), stats)
+            out.failures.append({"case": case, "what": f"implementation {'accepts' if got else 'rejects'}, Draft 6 says {'valid' if spec['strict'][i] else 'invalid'}"
+                                                       + (f" ({remark})" if remark else ""),
                                  "finding": fid, "flags": flags})
             stats["oracle-fail-" + str(fid)] = stats.get("oracle-fail-" + str(fid), 0) + 1
+            clean = False
+        elif agree:
+            checked.append((v, allowed, real["r"]))
+        else:
+            clean = False
+    if watch is not None:
+        if clean:
+            watch.offer(schema, el, idx, checked)
+        if watch.due():
+            watch.sweep(out, stats)
 
 
 def kw_hist(schema, hist):
@@ -127,23 +417,129 @@ def kw_hist(schema, hist):
                 kw_hist(v, hist)
 
 
+# ----------------------------------------------------------------------------- annotated trivial compositions
+
+def trivial_schema(rng, sg, depth=2, annotate=0.7):
+    """A schema that constrains nothing, spelled the long way: composition keywords whose branches are all
+    trivial (`true`, `{}`, or again such a composition), carrying only annotations (default / title / description)."""
+    if depth <= 0 or rng.random() < 0.2:
+        s = rng.choice([True, {}, {}])
+        if s is True or rng.random() > annotate:
+            return s
+        s = {}
+    else:
+        s = {}
+        for key in rng.sample(["allOf", "anyOf", "oneOf", "not"], rng.choice([1, 1, 1, 2])):
+            if key == "not":
+                s[key] = False
+            else:
+                n = 1 if key == "oneOf" else rng.choice([1, 1, 2])
+                s[key] = [trivial_schema(rng, sg, depth - 1, annotate * 0.4) for _ in range(n)]
+    if rng.random() < annotate:
+        s["default"] = sg.json_value(1)
+    if rng.random() < 0.25:
+        s["description"] = rng.choice(DESCRIPTIONS)
+    if rng.random() < 0.15:
+        s["title"] = rng.choice(TITLES)
+    return s
+
+
+def implicit_siblings(rng, sg):
+    """Schemas whose parse contains elements the document does not spell out or spells as `true` / `{}`:
+    undeclared required names, `true` properties, absent `items`, single trivial branches - next to the
+    documented deviation (a declared default) and to an arbitrary generated schema."""
+    n, m = rng.sample(PROP_NAMES, 2)
+    title = rng.choice(TITLES)
+    return [
+        {"type": "object", "title": title, "required": [n]},
+        {"type": "object", "title": title, "properties": {n: True, m: {"type": "array"}}, "required": [n]},
+        {"type": "object", "title": title, "properties": {n: {}}, "required": [n, m]},
+        {"required": [n]},
+        {"properties": {n: True}, "required": [n], "additionalProperties": rng.choice([True, {}, {"type": "integer"}])},
+        {"type": "object", "title": title, "properties": {n: {"default": sg.json_value(1)}, m: {"anyOf": [True]}}, "required": [n, m]},
+        {"type": "array", "minItems": 1},
+        {"items": [True, {"required": [n]}], "additionalItems": rng.choice([True, False])},
+        {"type": ["array", "object"], "title": title, "required": [n], "contains": True},
+        {"dependencies": {n: True, m: [n]}, "required": [m]},
+        {"oneOf": [True, {"required": [n]}]},
+        sg.schema(depth=2),
+        sg.schema(depth=2),
+    ]
+
+
+def trivial_hosts(rng, sg, t, s):
+    """(position, document, wrap): documents holding the annotated trivial schema `t` in one schema position and the
+    sibling `s` in another; `wrap` turns a value aimed at `s` into a value of the document that reaches it."""
+    p, q = rng.sample(PROP_NAMES, 2)
+    title = rng.choice(["Doc", "Host", "Thing"])
+    any_json = lambda: sg.json_value(1)
+    return [
+        ("properties", {"type": "object", "title": title, "properties": {p: s, q: t}}, lambda x: {p: x, q: any_json()}),
+        ("properties-untyped", {"properties": {q: t, p: s}}, lambda x: {p: x}),
+        ("required-property", {"type": "object", "title": title, "properties": {p: s, q: t}, "required": [q]}, lambda x: {p: x}),
+        ("additionalProperties", {"properties": {p: s}, "additionalProperties": t}, lambda x: {p: x, "zz": any_json()}),
+        ("patternProperties", {"properties": {p: s}, "patternProperties": {"^zz": t}}, lambda x: {p: x, "zz1": any_json()}),
+        ("dependencies", {"properties": {p: s}, "dependencies": {p: t}}, lambda x: {p: x}),
+        ("propertyNames", {"type": "object", "title": title, "properties": {p: s}, "propertyNames": t}, lambda x: {p: x}),
+        ("items", {"type": "array", "items": [s, t]}, lambda x: [x, any_json()]),
+        ("items-single", {"items": s, "contains": t}, lambda x: [x]),
+        ("additionalItems", {"items": [s], "additionalItems": t}, lambda x: [x, any_json()]),
+        ("allOf", {"allOf": [t, s]}, lambda x: x),
+        ("anyOf+allOf", {"anyOf": [t], "allOf": [s]}, lambda x: x),
+        ("oneOf", {"oneOf": [s], "anyOf": [t, {"type": "null"}]}, lambda x: x),
+        ("sibling-keywords", {**s, "allOf": [t]} if isinstance(s, dict) and "allOf" not in s else {"allOf": [s, t]}, lambda x: x),
+    ]
+
+
+def trivial_family(rng, sg, vg, stats):
+    """Annotated trivial compositions x every schema position x siblings with implicit elements.  Each annotated
+    schema is also given to the parser on its own, between two parses of the sibling (an operation history of
+    unrelated documents)."""
+    fam = stats.setdefault("trivial-composition-family", {"schemas": 0, "positions": {}, "annotated-with-default": 0, "standalone": 0})
+    for s in implicit_siblings(rng, sg):
+        t = trivial_schema(rng, sg)
+        while not isinstance(t, dict) or not ({"allOf", "anyOf", "oneOf", "not"} & set(t)):
+            t = trivial_schema(rng, sg)
+        if "default" in t:
+            fam["annotated-with-default"] += 1
+        aimed = vg.values(s, 4) + [{}, [], rng.choice([None, 0, "a", [{}]])]
+        hosts = trivial_hosts(rng, sg, t, s)
+        yield s, aimed
+        fam["standalone"] += 1
+        yield t, [sg.json_value(2) for _ in range(3)]
+        yield s, aimed
+        for pos, doc, wrap in rng.sample(hosts, 5):
+            sg.ensure_title(doc)
+            fam["schemas"] += 1
+            fam["positions"][pos] = fam["positions"].get(pos, 0) + 1
+            yield doc, [wrap(x) for x in aimed] + vg.values(doc, 1)
+
+
 def run(ctx, scale=1.0):
     rng = random.Random(ctx["seed"])
     out = Outcome()
     out.rule = ("schemas from the grammar-directed generator (harness/gen.py), 8 schema-directed or free values each; "
                 "a case is a (schema, value) pair; non-trivial = the schema object has >= 2 keywords besides title/description; "
-                "distinct = by SHA-256 of the canonical JSON of the pair")
+                "distinct = by SHA-256 of the canonical JSON of the pair; every parse is also one step of the process history "
+                "against which earlier elements are re-observed")
     stats = {}
     hist = {}
     drv = core.Driver()
+    history = History()
+    watch = Watch(rng, history)
     try:
         for case in corpus_cases():
-            check_case(drv, case["schema"], case["values"], out, stats)
+            check_case(drv, case["schema"], case["values"], out, stats, hist=history, watch=watch)
         for schema, values in families(rng):
             kw_hist(schema, hist)
-            check_case(drv, schema, list(values) + [core.NP], out, stats)
+            check_case(drv, schema, list(values) + [core.NP], out, stats, hist=history, watch=watch)
         stats["family-cases"] = out.evaluations
         sg, vg = SchemaGen(rng), ValueGen(rng)
+        for _ in range(N_TRIVIAL_ROUNDS[ctx["tier"]]):
+            for schema, values in trivial_family(rng, sg, vg, stats):
+                kw_hist(schema, hist)
+                check_case(drv, schema, list(values) + [core.NP], out, stats, hist=history, watch=watch)
+        stats["trivial-composition-family"]["cases"] = out.evaluations - stats["family-cases"]
         n = int(N_SCHEMAS[ctx["tier"]] * scale)
         for i in range(n):
             extreme = (i % 10 == 9)
@@ -151,9 +547,12 @@ def run(ctx, scale=1.0):
             schema = sg.schema()
             kw_hist(schema, hist)
             values = vg.values(schema, N_VALUES) + [core.NP]
-            check_case(drv, schema, values, out, stats)
+            check_case(drv, schema, values, out, stats, hist=history, watch=watch)
+        watch.sweep(out, stats)
     finally:
         drv.close()
+    stats["history-parses"] = len(history.log)
+    stats["history-watched-features"] = sorted(watch.by_feature)
     stats["keyword-histogram"] = dict(sorted(hist.items(), key=lambda kv: -kv[1]))
     out.stats = stats
     return out
@@ -219,10 +618,40 @@ def replay(payload):
     case = payload.get("failure", {}).get("case")
     if not case:
         return True
-    real, spec = _verdicts(case["schema"], case["value"])
-    if real is None:
+    if not (case.get("history") or case.get("order") == "before"):
+        real, spec = _verdicts(case["schema"], case["value"])
+        if real is None:
+            return True
+        if real["r"] not in ("ok", "reject"):
+            return False
+        got = real["r"] == "ok"
+        return got in {spec["impl_leniency"][0], spec["strict"][0], spec["lenient"][0]}
+    # a case with a history: this process has parsed nothing yet, so redo the history in its order and
+    # judge every verdict of the case's (schema, value) by the specification
+    obs = run_history(case)
+    if obs is None:
         return True
-    if real["r"] not in ("ok", "reject"):
-        return False
-    got = real["r"] == "ok"
-    return got in {spec["impl_leniency"][0], spec["strict"][0], spec["lenient"][0]}
+    drv = core.Driver()
+    try:
+        spec = drv.ask({"op": "spec", "schema": core.enc_val(case["schema"]), "args": [core.enc_arg(case["value"])],
+                        "tables": core.schema_tables(case["schema"], [case["value"]])})
+    finally:
+        drv.close()
+    allowed = {spec["impl_leniency"][0], spec["strict"][0], spec["lenient"][0]}
+    for label, r in obs:
+        if r not in ("ok", "reject") or (r == "ok") not in allowed:
+            log_line = f"replay: {label}: {r}; Draft 6 allows accepts={sorted(allowed)}"
+            print(log_line, file=sys.stderr)
+            return False
+    return True
+
+
+def _probe_main():
+    req = unjsonable(json.loads(sys.stdin.read()))
+    obs = run_history(req["case"])
+    print(json.dumps({"obs": obs}))
+
+
+if __name__ == "__main__":
+    if "--probe" in sys.argv:
+        _probe_main()
